@@ -41,7 +41,7 @@ RULE = ("Hypothesis RuleBasedStateMachine over a fresh temporary repository: rul
 ASSUMPTIONS = ["ADF11-style families take the table under the key 'rates' (what install.py passes), all others 'rate'",
                "finite float64 values only (no NaN/inf): JSON round trip of NaN is outside the stated property",
                "HOME redirection before import captures every write that ignores repository_path"]
-REQUIRED_LABELS = ["machine:overwrite", "machine:same-file-siblings", "machine:rejected", "machine:w:install11:scd", "machine:w:install11:ccd", "machine:install11:via-files", "machine:reject:content-into-existing-file", "machine:install15"]
+REQUIRED_LABELS = ["machine:overwrite", "machine:same-file-siblings", "machine:rejected", "machine:w:install11:scd", "machine:w:install11:ccd", "machine:install11:via-files", "machine:reject:content-into-existing-file", "machine:repo-path:unusual", "machine:install15"]
 
 SPECIES = ["hydrogen", "deuterium", "tritium", "helium", "helium3", "carbon", "neon", "argon"]
 SP = {n: getattr(E, n) for n in SPECIES}
@@ -174,7 +174,15 @@ class Repo:
 
     def __init__(self, ctx, params):
         self.ctx = ctx
-        self.path = tempfile.mkdtemp(prefix="vf_c06_repo_")
+        # the repository is a generated directory name (spaces, braces, percent signs, dots, non-ASCII ...) below a fresh top
+        # directory; whatever is created anywhere below that top but outside the repository path is a stray file
+        self.top = tempfile.mkdtemp(prefix="vf_c06_top_")
+        parts = [c for c in (params or {}).get("dir", ["repo"]) if c]
+        self.path = os.path.join(self.top, *parts)
+        if (params or {}).get("premade", True):
+            os.makedirs(self.path)
+        if parts != ["repo"]:
+            ctx.label("repo-path:unusual")
         self.model = {}      # key tuple -> dict of expected arrays / floats
         self.files = {}      # relative file -> set of keys stored in it
         self.n_over = 0
@@ -184,7 +192,7 @@ class Repo:
         self.touched = []
 
     def close(self):
-        shutil.rmtree(self.path, ignore_errors=True)
+        shutil.rmtree(self.top, ignore_errors=True)
 
     # ---- helpers
     def _tr(self, i):
@@ -776,6 +784,11 @@ class Repo:
         for root, dirs, files in os.walk(self.path):
             for f in files:
                 found.add(os.path.relpath(os.path.join(root, f), self.path))
+        for root, dirs, files in os.walk(self.top):
+            for f in files:
+                full = os.path.join(root, f)
+                if not os.path.abspath(full).startswith(os.path.abspath(self.path) + os.sep):
+                    self.ctx.fail("files", "file %r was created outside the repository path %r" % (full, self.path))
         want = set(self.files)
         if found != want:
             self.ctx.fail("files", "files in repository %r differ from those implied by the writes: unexpected %r, missing %r"
@@ -790,6 +803,16 @@ class Repo:
         self.ctx.nt(self.n_over > 0 or self.n_sib > 0 or self.n_rej > 0)
 
 
+_DIRNAMES = ["repo", "repo", "my repo (v2)", "{{project}}_atomic_data", "{0}", "{}", "data{", "%s_%d", "100%", "r\u00e9pertoire-\u00fc", "a.b.json",
+             "rate$HOME", "~user", "trailing.", " lead", "UPPER", "wave'length", "x,y;z", "[1]", "#hash", "&and", "=eq", "+plus", "@at"]
+
+
+@st.composite
+def repo_params(draw):
+    n = draw(st.sampled_from([1, 1, 2]))
+    return {"dir": [draw(st.sampled_from(_DIRNAMES)) for _ in range(n)], "premade": draw(st.sampled_from([True, True, False]))}
+
+
 def _brief(x):
     if isinstance(x, dict):
         return {k: _brief(v) for k, v in list(x.items())[:4]}
@@ -799,5 +822,5 @@ def _brief(x):
 
 
 SUBCHECKS = {
-    "machine": Machine(Repo, quick=480, thorough=6000, steps=(25, 30)),
+    "machine": Machine(Repo, quick=480, thorough=6000, steps=(25, 30), params=lambda: repo_params()),
 }
